@@ -1459,11 +1459,20 @@ impl<T: PPGEvaluatorStrategy> PPGEvaluator<T> {
                                 self.gen
                             );
                         }
+                        JobState::Ephemeral(JobStateEphemeral::ReadyButDelayed) => {
+                            // not yet offered: it will not be needed any more
+                            set_node_state!(
+                                j,
+                                JobState::Ephemeral(JobStateEphemeral::FinishedUpstreamFailure),
+                                self.gen
+                            );
+                        }
                         _ => {
-                            return Err(PPGEvaluatorError::InternalError(format!(
-                                "unexpected was 7 {:?}",
-                                j
-                            )))
+                            // the job was already offered, is running, or has finished otherwise:
+                            // that happens when one of its upstreams was skipped (and this job
+                            // released) before that upstream's own (ephemeral) input failed after all.
+                            // What this job was built from was valid, so it is left alone.
+                            propagate = false;
                         }
                     }
                     if propagate {
